@@ -290,3 +290,6 @@ func LazyJSON(depth, width int, keyMenu string) []byte {
 	s, _ := next("json").Val.(string)
 	return []byte(s)
 }
+
+// Note prints a diagnostic natively (never compared with the executor; ignored there).
+func Note(tag string, v interface{}) { fmt.Printf("VERIF-NOTE: %s=%v\n", tag, v) }
